@@ -214,20 +214,36 @@ func vhGCWorld(size int, exact bool) *vhGCSetup {
 		}
 		if size > 0 {
 			n.entry = vh.Choice("entry_"+n.name, 3)
-		} else if n.name == "I" || n.name == "R" {
+		} else if n.name == "R" {
 			n.entry = 2 * vh.Choice("entry_"+n.name, 2) // absent or tagged
+		} else if n.name == "I" {
+			n.entry = []int{0, 2, 3}[vh.Choice("entry_"+n.name, 3)] // absent, tagged, pushed then deleted by digest
 		} else {
 			n.entry = 1 + vh.Choice("entry_"+n.name, 2) // untagged or tagged
 		}
 		if n.name == "R" && n.entry == 2 {
 			n.entry = 1
 		}
+		// an index is inserted as manifestPut does it: its children move to the child list
+		var opts []types.IndexOpt
+		if n.mt == types.MediaTypeOCI1ManifestList {
+			var kids []types.Descriptor
+			for _, r := range n.refs {
+				kids = append(kids, w.g.desc(r))
+			}
+			opts = append(opts, types.IndexWithChildren(kids))
+		}
 		switch n.entry {
 		case 1:
-			_ = w.repo.IndexInsert(d)
+			_ = w.repo.IndexInsert(d, opts...)
 		case 2:
 			d.Annotations = map[string]string{types.AnnotRefName: "tag-" + n.name}
-			_ = w.repo.IndexInsert(d)
+			_ = w.repo.IndexInsert(d, opts...)
+		case 3:
+			// pushed by digest and deleted again: its children stay known as children only
+			_ = w.repo.IndexInsert(d, opts...)
+			_ = w.repo.IndexRemove(types.Descriptor{MediaType: d.MediaType, Digest: d.Digest, Size: d.Size})
+			n.entry = 0
 		}
 	}
 	// what the index really holds at top level (a response insertion moves the
